@@ -8,11 +8,11 @@
 //!                                  | ( touch d n m ) | ( compile d n src )
 //! result = ( ev ... )          one per compile op:
 //!   ev   = ( outcome producer cur detected ( (id mode) ... ) )
-//!          outcome  panic | unsupported | fail | hit | miss
+//!          outcome  unsupported | fail | hit | miss   (panic = compiler_info panicked: never expected)
 //!          producer stamp found in the object handed back (0 = none)
 //!          cur      () | ( bytes-id mtime )  what is at the path now: bytes-id read back from the
 //!                   file AND, for working compilers, confirmed by running the path DIRECTLY
-//!          detected 1 iff the detection probe was run for this request
+//!          detected 1 iff the detection probe was run for this request (read off the invocation log)
 //!          log      what was executed for the request: mode D(etect) E(preprocess) C(ompile) X(not a compiler)
 use futures::FutureExt;
 use sccache::server::SccacheService;
@@ -208,10 +208,7 @@ fn run_case(rt: &tokio::runtime::Runtime, case: &Sx, seq: u64) -> Sx {
                 let mut detected = 0u64;
                 let outcome: &str = match info {
                     Err(_) => "panic",
-                    Ok(Err(_)) => {
-                        detected = 1;
-                        "unsupported"
-                    }
+                    Ok(Err(_)) => "unsupported",
                     Ok(Ok(c)) => match c.parse_arguments(&args, &cwd, &env) {
                         CompilerArguments::Ok(hasher) => {
                             let r = rt.block_on(async {
@@ -249,7 +246,9 @@ fn run_case(rt: &tokio::runtime::Runtime, case: &Sx, seq: u64) -> Sx {
                     },
                 };
                 let log = w.take_log();
-                if log.iter().any(|e| e.arg(1).is_sym("D")) {
+                // the probe ran iff a compiler logged a D, or (detection being the only thing that runs
+                // before an "unsupported" answer) a non-compiler logged anything
+                if log.iter().any(|e| e.arg(1).is_sym("D")) || (outcome == "unsupported" && !log.is_empty()) {
                     detected = 1;
                 }
                 let prod = if outcome == "hit" || outcome == "miss" { stamp(&obj) } else { 0 };
